@@ -4,6 +4,7 @@ import (
 	"fmt"
 	"math"
 	"reflect"
+	"sort"
 	"unsafe"
 )
 
@@ -68,6 +69,16 @@ func eq(a, b reflect.Value, path string, seen map[visit]bool, d int) string {
 		}
 		if a.Len() != b.Len() {
 			return fmt.Sprintf("%s: map len %d vs %d", path, a.Len(), b.Len())
+		}
+		if hasPointer(a.Type().Key()) {
+			// keys with pointers are never identical between two conversions: compare the multisets of printed entries
+			pa, pb := mapEntries(a), mapEntries(b)
+			for i := range pa {
+				if pa[i] != pb[i] {
+					return fmt.Sprintf("%s: entries differ: %s vs %s", path, pa[i], pb[i])
+				}
+			}
+			return ""
 		}
 		it := a.MapRange()
 		for it.Next() {
@@ -233,4 +244,30 @@ func clone(v reflect.Value, memo map[visit]reflect.Value) reflect.Value {
 		return n
 	}
 	return v
+}
+
+func hasPointer(t reflect.Type) bool {
+	switch t.Kind() {
+	case reflect.Ptr, reflect.Interface, reflect.Chan, reflect.UnsafePointer:
+		return true
+	case reflect.Array:
+		return hasPointer(t.Elem())
+	case reflect.Struct:
+		for i := 0; i < t.NumField(); i++ {
+			if hasPointer(t.Field(i).Type) {
+				return true
+			}
+		}
+	}
+	return false
+}
+
+func mapEntries(m reflect.Value) []string {
+	var out []string
+	it := m.MapRange()
+	for it.Next() {
+		out = append(out, Show(it.Key())+"=>"+Show(it.Value()))
+	}
+	sort.Strings(out)
+	return out
 }
